@@ -1,7 +1,8 @@
 (* C17 — a Track is always chronological; slicing and speed filtering are exact.
    Only statements closed by [exact] and their Print Assumptions. *)
 From Coq Require Import QArith Permutation Sorted.
-From GV Require Import Prelude CollM CollP.
+From GV Require Import Prelude CollM CollP CollP2 CollP3.
+From GV Require TimeM TimeP.
 Open Scope Z_scope.
 
 (* Track(shapes) is in non-decreasing start order: every earlier shape starts no later than
@@ -34,3 +35,179 @@ Theorem C17_mk_rejects_nodt : forall raws,
    exists l, raws = map Timed l /\ mk_track raws = Ok (isort st l)).
 Proof. exact mk_rejects_nodt. Qed.
 Print Assumptions C17_mk_rejects_nodt.
+
+(* ---------------------------------------------------------------------------------------------
+   Every operation.  [run dist merge t0 ops] applies any finite chain of
+   add / slice / filter_by_dt / filter_by_time / convolve / filter_impossible_journeys. *)
+Theorem C17_ops_sorted : forall dist merge raws ops t0 t,
+  mk_track raws = Ok t0 -> run dist merge t0 ops = Ok t ->
+  StronglySorted (fun x y => st x <= st y) t.
+Proof. exact ops_sorted. Qed.
+Print Assumptions C17_ops_sorted.
+
+(* concatenation: chronological, a permutation of both operands, and among equal starts the
+   left operand's shapes come first, each side in its own order *)
+Theorem C17_add_spec : forall t u,
+  StronglySorted (fun x y => st x <= st y) (add t u) /\ Permutation (add t u) (t ++ u) /\
+  forall k, filter (fun x => st x =? k) (add t u) =
+            filter (fun x => st x =? k) t ++ filter (fun x => st x =? k) u.
+Proof. exact add_spec. Qed.
+Print Assumptions C17_add_spec.
+
+(* slices, time filters and the speed filter only select: the result is a sublist (same
+   relative order) of the track they are applied to.  [sublist] is defined in CollP2.v. *)
+Theorem C17_selecting_sublist : forall dist merge t o t',
+  StronglySorted (fun x y => st x <= st y) t ->
+  (match o with OAdd _ | OAddOther | OConvolve => false | _ => true end) = true ->
+  apply_op dist merge t o = Ok t' -> sublist t' t.
+Proof. exact selecting_sublist. Qed.
+Print Assumptions C17_selecting_sublist.
+
+(* ---------------------------------------------------------------------------------------------
+   Slicing: exactly the shapes with a <= start and end < b, None = unbounded on that side. *)
+Theorem C17_slice_spec : forall t a b,
+  StronglySorted (fun x y => st x <= st y) t -> t <> [] ->
+  slice t a b = Ok (filter (fun x => match a with Some a' => a' <=? st x | None => true end &&
+                                     match b with Some b' => en x <? b' | None => true end) t).
+Proof. exact slice_spec. Qed.
+Print Assumptions C17_slice_spec.
+
+Theorem C17_slice_exact : forall t a b out,
+  StronglySorted (fun x y => st x <= st y) t -> slice t a b = Ok out ->
+  (forall x, In x out <->
+     In x t /\ match a with Some a' => a' <= st x | None => True end
+            /\ match b with Some b' => en x < b' | None => True end)
+  /\ sublist out t /\ StronglySorted (fun x y => st x <= st y) out.
+Proof. exact slice_exact. Qed.
+Print Assumptions C17_slice_exact.
+
+(* the empty track: an omitted bound raises (self.geoshapes[0] / max() of nothing) *)
+Theorem C17_slice_empty : forall a b,
+  slice [] a b = match a, b with
+                 | None, _ => Err IndexError
+                 | Some _, None => Err ValueError
+                 | Some _, Some _ => Ok []
+                 end.
+Proof. exact slice_empty. Qed.
+Print Assumptions C17_slice_empty.
+
+(* D18 (repaired): with the old default stop (end of the last-STARTING shape + 1 s) an
+   open-ended slice drops a shape of the track *)
+Theorem C17_slice_open_old_refuted : exists t x hi,
+  StronglySorted (fun x y => st x <= st y) t /\ In x t /\
+  slice_hi_old t None = Ok hi /\ slice_pred (st x) hi x = false.
+Proof. exact slice_open_old_refuted. Qed.
+Print Assumptions C17_slice_open_old_refuted.
+
+(* ---------------------------------------------------------------------------------------------
+   Speed filter.  [reach dist v p x] : st p < st x /\ dist (pl p) (pl x) <= v * seconds between
+   the starts.  [greedy dist v p l k] (CollP2.v) : scanning l with p the previously KEPT shape,
+   x is kept iff [reach v p x] and then becomes the previously kept shape; k = kept shapes. *)
+Theorem C17_fij_spec : forall dist v x l,
+  StronglySorted (fun x y => st x <= st y) (x :: l) ->
+  exists k, fij dist (x :: l) v = Ok (x :: k) /\ greedy dist v x l k /\
+            (forall k', greedy dist v x l k' -> k' = k) /\ sublist (x :: k) (x :: l).
+Proof. exact fij_spec. Qed.
+Print Assumptions C17_fij_spec.
+
+Theorem C17_reach_def : forall dist v p x,
+  reach dist v p x <->
+  st p < st x /\ (dist (pl p) (pl x) <= v * (inject_Z (st x - st p) / inject_Z 1000000))%Q.
+Proof. exact (fun dist v p x => iff_refl _). Qed.
+Print Assumptions C17_reach_def.
+
+Theorem C17_greedy_inversion : forall dist v p x l k,
+  greedy dist v p (x :: l) k <->
+  (reach dist v p x /\ exists k', k = x :: k' /\ greedy dist v x l k') \/
+  (~ reach dist v p x /\ greedy dist v p l k).
+Proof. exact greedy_inversion. Qed.
+Print Assumptions C17_greedy_inversion.
+
+(* consecutive kept shapes are reachable from one another *)
+Theorem C17_fij_chain : forall dist v p l k, greedy dist v p l k -> chain_ok dist v p k.
+Proof. exact greedy_chain. Qed.
+Print Assumptions C17_fij_chain.
+
+Theorem C17_fij_empty : forall dist v, fij dist [] v = Err IndexError.
+Proof. exact fij_empty. Qed.
+Print Assumptions C17_fij_empty.
+
+(* ---------------------------------------------------------------------------------------------
+   Duplicate timestamps (timestamp = (start, end)): exactly one shape per distinct timestamp,
+   same set of timestamps, shapes alone with their timestamp kept as they are, every other
+   output shape is the created ping of its group (first member's time, merged payload). *)
+Theorem C17_convolve_spec : forall merge t,
+  let out := convolve merge t in
+  StronglySorted (fun x y => st x <= st y) out /\
+  NoDup (map (fun x => (st x, en x)) out) /\
+  (forall d, In d (map (fun x => (st x, en x)) t) <-> In d (map (fun x => (st x, en x)) out)) /\
+  (forall x, In x t -> filter (same_dt x) t = [x] -> In x out) /\
+  (forall y, In y out ->
+     (In y t /\ filter (same_dt y) t = [y]) \/
+     (exists f, In f t /\ (2 <= length (filter (same_dt f) t))%nat /\
+        y = mkitem (newid (id f)) (st f) (en f) (ost f) (oen f)
+                   (merge (map pl (filter (same_dt f) t))))).
+Proof. exact convolve_spec. Qed.
+Print Assumptions C17_convolve_spec.
+
+(* ---------------------------------------------------------------------------------------------
+   Time filters on a Track *)
+Theorem C17_filter_by_dt_spec : forall t d, StronglySorted (fun x y => st x <= st y) t ->
+  filter_by_dt t d = filter (fun x => (st x =? d) && (en x =? d)) t.
+Proof. exact filter_by_dt_spec. Qed.
+Print Assumptions C17_filter_by_dt_spec.
+
+Theorem C17_filter_by_iv_spec : forall t a b, StronglySorted (fun x y => st x <= st y) t ->
+  filter_by_iv t a b = filter (iv_pred a b) t.
+Proof. exact filter_by_iv_spec. Qed.
+Print Assumptions C17_filter_by_iv_spec.
+
+(* ... whose per-shape predicate is "the two time sets of C06 share an instant" *)
+Theorem C17_iv_pred_spec : forall a b x, a <= b -> st x <= en x ->
+  (iv_pred a b x = true <->
+   exists t : Q, TimeP.mem t (TimeM.mkiv a b) /\ TimeP.mem t (TimeM.mkiv (st x) (en x))).
+Proof. exact iv_pred_spec. Qed.
+Print Assumptions C17_iv_pred_spec.
+
+Theorem C17_filter_by_time_spec : forall t s e, StronglySorted (fun x y => st x <= st y) t ->
+  filter_by_time t s e = filter (tod_pred s e) t.
+Proof. exact filter_by_time_spec. Qed.
+Print Assumptions C17_filter_by_time_spec.
+
+Theorem C17_tod_pred_spec : forall s e x, s <= e -> tod (st x) (ost x) <= tod (en x) (oen x) ->
+  (tod_pred s e x = true <->
+   exists u, s <= u <= e /\ tod (st x) (ost x) <= u <= tod (en x) (oen x)).
+Proof. exact tod_pred_spec. Qed.
+Print Assumptions C17_tod_pred_spec.
+
+(* ---------------------------------------------------------------------------------------------
+   Non-vacuity: a concrete track on which every hypothesis above is met and every operation
+   does something.  Shapes: 0 = [0 h, 100 h) at position 0; 1 = {1 h} at 0; 2 = {1 h} at 1;
+   3 = {2 h} at 1; distance 1000 m between positions 0 and 1; input order 3,1,0,2. *)
+Definition ex_h := 3600000000.
+Definition ex_dist (a b : Z) : Q := if a =? b then 0%Q else inject_Z 1000.
+Definition ex_items :=
+  [mkitem 3 (2 * ex_h) (2 * ex_h) 0 0 1; mkitem 1 ex_h ex_h 0 0 0;
+   mkitem 0 0 (100 * ex_h) 0 0 0; mkitem 2 ex_h ex_h 0 0 1].
+Definition ex_track := isort st ex_items.
+
+Example C17_nonvacuous_mk :
+  mk_track (map Timed ex_items) = Ok ex_track /\ map id ex_track = [0; 1; 2; 3] /\
+  mk_track (Untimed 9 0 :: map Timed ex_items) = Err ValueError.
+Proof. vm_compute. repeat split. Qed.
+
+Example C17_nonvacuous_ops :
+  (* open-ended slice keeps the long early shape (D18) *)
+  option_map (map id) (match slice ex_track (Some 0) None with Ok t => Some t | _ => None end)
+    = Some [0; 1; 2; 3] /\
+  option_map (map id) (match slice ex_track (Some ex_h) (Some (2 * ex_h)) with Ok t => Some t | _ => None end)
+    = Some [1; 2] /\
+  (* 1000 m in 1 h is 0.2777.. m/s: at 0.25 m/s shape 2 (same time as 1) and 3 are dropped *)
+  option_map (map id) (match fij ex_dist ex_track (1 # 4) with Ok t => Some t | _ => None end)
+    = Some [0; 1] /\
+  option_map (map id) (match fij ex_dist ex_track (1 # 2) with Ok t => Some t | _ => None end)
+    = Some [0; 1; 3] /\
+  map id (convolve (fun _ => 7) ex_track) = [0; -2; 3] /\
+  map id (filter_by_iv ex_track ex_h (2 * ex_h)) = [0; 1; 2] /\
+  map id (add ex_track [mkitem 4 ex_h ex_h 0 0 0]) = [0; 1; 2; 4; 3].
+Proof. vm_compute. repeat split. Qed.
